@@ -42,7 +42,14 @@ def gen_values(rnd, S, G, bits=4, lo=1):
 
 def make_dp(idx, vals, outlier_prob=Fraction(0), size=1, name=None):
     """Real DataPoint from an exact likelihood matrix (probability domain)."""
-    arr = np.log(np.array([[float(v) for v in row] for row in vals], dtype=float))
+    def _log(v):
+        f = float(v)
+        if f > 1e-300:
+            return float(np.log(f))
+        v = Fraction(v)  # below the float range: the log itself is perfectly representable
+        return math.log(v.numerator) - math.log(v.denominator)
+
+    arr = np.array([[_log(v) for v in row] for row in vals], dtype=float)
     a, b = compute_outlier_prob(float(outlier_prob), size)
     return DataPoint(idx, arr, name=name, outlier_prob=a, outlier_prob_not=b)
 
